@@ -121,7 +121,7 @@ func StubC17ParseFile(fset *token.FileSet, filename string, src any, mode parser
 		})
 	}
 	for i, d := range st.decls {
-		if fd, ok := d.(*ast.FuncDecl); ok && st.cs.fixed != "" && c17IsFixed(st.cs.fixed, fd.Name.Name) {
+		if st.cs.fixed != "" && c17IsFixed(st.cs.fixed, c17DeclName(d)) {
 			st.touched[i] = true
 			st.any = true
 		}
@@ -160,6 +160,25 @@ func c17IsFixed(fixed, name string) bool {
 		}
 	}
 	return false
+}
+
+// c17DeclName: the name a declaration is listed under in c17Case.fixed: the
+// function's name, or the first name the first spec declares.
+func c17DeclName(d ast.Decl) string {
+	switch d := d.(type) {
+	case *ast.FuncDecl:
+		return d.Name.Name
+	case *ast.GenDecl:
+		if len(d.Specs) > 0 {
+			switch sp := d.Specs[0].(type) {
+			case *ast.ValueSpec:
+				return sp.Names[0].Name
+			case *ast.TypeSpec:
+				return sp.Name.Name
+			}
+		}
+	}
+	return ""
 }
 
 func c17DocOf(d ast.Decl) *ast.CommentGroup {
@@ -318,7 +337,7 @@ func ReplayC17Comments() {
 		gd, ok := d.(*ast.GenDecl)
 		st.isImport = append(st.isImport, ok && gd.Tok == token.IMPORT)
 		st.touched = append(st.touched, false)
-		if fd, ok := d.(*ast.FuncDecl); ok && cs.fixed != "" && c17IsFixed(cs.fixed, fd.Name.Name) {
+		if cs.fixed != "" && c17IsFixed(cs.fixed, c17DeclName(d)) {
 			st.touched[i] = true
 			st.any = true
 		}
